@@ -3,6 +3,7 @@ import MW.Props.C05
 import MW.Inv.WorldInv
 import MW.Inv.Demo
 import MW.Inv.WorldPayable
+import MW.Inv.WorldFees
 import MW.Staking.Interface
 /-!
 # C02 — Contract-held staked asset always equals what it owes (solvency)
@@ -243,6 +244,89 @@ theorem ownerless_only_by_resume {s s' : CState} {env : Env} {info : Info} {m : 
     unfold feeWithdraw at hx
     simp only [bind_ok, pure_ok, ensure_ok, decide_eq_true_eq] at hx
     obtain ⟨_, _, _, hle, _, _, hx⟩ := hx; cases hx; exact h0
+
+open MW.Chain in
+/-- one transaction of the chain model, committed or rolled back, with whatever faults -/
+theorem runExec_ownerless (w : World) (sender : String) (funds : List Coin) (msg : ExecMsg) (f : Faults) (txi : Option Nat)
+    (h0 : ¬ Ownerless w.c.st) (hm : ∀ n l r, msg ≠ .resumeContract n l r) :
+    ¬ Ownerless (runExec w sender funds msg f txi).w.c.st := by
+  unfold runExec
+  cases hcore : runExecCore w sender funds msg f txi with
+  | mk o calls =>
+    cases o with
+    | none => exact h0
+    | some w' =>
+      simp only
+      obtain ⟨bal1, c', msgs, d, _, hx, hd, hw'⟩ := runExecCore_some hcore
+      subst hw'
+      have hc := dispatchAll_st f { w := { w with bal := bal1, c := c' },
+                                    calls := [Call.execute { sender, funds } msg (.ok msgs)] } msgs
+      rw [hd] at hc
+      rw [hc]
+      exact ownerless_only_by_resume hx h0 hm
+
+open MW.Chain in
+/-- the event is not an admin override of the totals -/
+def notResumeEv : Event → Prop
+  | .exec _ _ msg _ _ => ∀ n l r, msg ≠ .resumeContract n l r
+  | .hook _ _ _ msg _ => ∀ n l r, msg ≠ .resumeContract n l r
+  | _ => True
+
+open MW.Chain in
+theorem step_ownerless (w : World) (e : Event) (h0 : ¬ Ownerless w.c.st) (hn : notResumeEv e) :
+    ¬ Ownerless (step w e).w.c.st := by
+  by_cases hx : ∃ s fu m f t, e = .exec s fu m f t
+  · obtain ⟨sender, funds, msg, f, txi, rfl⟩ := hx
+    simp only [step]
+    exact runExec_ownerless w sender funds msg f txi h0 hn
+  by_cases hk : ∃ c n co m f, e = .hook c n co m f
+  · obtain ⟨channel, ns, coin, msg, f, rfl⟩ := hk
+    simp only [step]
+    split
+    · exact h0
+    · rename_i acct hacct
+      split
+      · exact h0
+      · have h1 := runExec_ownerless { w with bal := w.bal.add acct coin.denom coin.amount } acct [coin] msg f (some 0) h0 hn
+        split
+        · exact h1
+        · exact h0
+  · have he : ∀ s fu m f t, e ≠ .exec s fu m f t := fun s fu m f t h => hx ⟨s, fu, m, f, t, h⟩
+    have hh : ∀ c n co m f, e ≠ .hook c n co m f := fun c n co m f h => hk ⟨c, n, co, m, f, h⟩
+    rw [step_st_other w e he hh]; exact h0
+
+open MW.Chain in
+def runEvs (w : World) : List Event → World
+  | [] => w
+  | e :: es => runEvs (step w e).w es
+
+open MW.Chain in
+/-- **every history**: as long as the admin does not override the totals, no interleaving of users, operator, relayers
+and faults ever leaves a staked total without LST behind it — so the sweep of the stake handler never fires, and
+`total_fees` never comes to include tokens the contract does not hold -/
+theorem C02_never_ownerless (w : World) (evs : List Event) (h0 : ¬ Ownerless w.c.st) (hn : ∀ e ∈ evs, notResumeEv e) :
+    ¬ Ownerless (runEvs w evs).c.st := by
+  induction evs generalizing w with
+  | nil => exact h0
+  | cons e es ih =>
+    simp only [runEvs]
+    exact ih (step w e).w (step_ownerless w e h0 (hn e (by simp))) (fun e' he' => hn e' (by simp [he']))
+
+section DemoOwnerless
+open MW.Chain MW.Chain.Demo
+/-! non-vacuity of `C02_never_ownerless`: after the demo's opening ResumeContract (0, 0, 0) nothing is staked and no LST
+exists (not ownerless); none of the remaining events is a ResumeContract; at the end 3400 are staked behind 2500 LST -/
+#guard (demoBoot.map fun w =>
+  let w1 := runEvs w (demoEvents.take 1)
+  let rest := demoEvents.drop 1
+  let w2 := runEvs w1 rest
+  (w1.c.st.totalLst, w1.c.st.totalNative,
+   rest.all (fun e => match e with
+     | .exec _ _ (.resumeContract ..) _ _ => false
+     | .hook _ _ _ (.resumeContract ..) _ => false
+     | _ => true),
+   w2.c.st.totalLst, w2.c.st.totalNative)) == some (0, 0, true, 2500, 3400)
+end DemoOwnerless
 
 /-- the statements of this file quantify over every message the staking contract accepts: the `ExecuteMsg` the source
 declares (table regenerated from /repo's `msg.rs` on every run) has exactly the variants, fields and types of the
